@@ -554,7 +554,7 @@ func c15Preempt(w *ndWriter) (int, int) {
 		}}
 	})
 	// BufferedChannelQueue: user operations and the loader goroutine
-	bqUser := []string{"bq.offer.locked", "bq.offer.done", "bq.take.checked", "bq.take.notified", "bq.getch.enter", "bq.getch.notified",
+	bqUser := []string{"bq.offer.locked", "bq.offer.done", "bq.take.checked", "bq.notify.checked", "bq.take.notified", "bq.getch.enter", "bq.getch.notified",
 		"bq.loader.woken", "bq.loader.checked", "bq.loader.locked", "bq.loader.polled", "bq.loader.unlocking", "bq.loader.unlocked", "bq.freenode.locked"}
 	bqCloser := []string{"bq.close.locked", "bq.close.flagged", "bq.close.wakeclosed", "bq.close.done"}
 	for _, opName := range []string{"Offer", "Offer-overflow", "Take", "TakeWithTimeout", "Poll", "GetChannel", "Count"} {
@@ -591,7 +591,7 @@ func c15Preempt(w *ndWriter) (int, int) {
 	}
 	// WorkerPool: Schedule, the workers and the spawn loop against pool.Close (which closes the queue)
 	wpUser := []string{"wp.schedule.checked", "wp.schedule.offered", "wp.worker.loop", "wp.worker.got", "wp.worker.jobdone", "wp.spawn.woken", "wp.spawn.decided", "wp.gen.counted",
-		"wp.worker.exit.pre", "wp.worker.exit.post", "bq.offer.locked", "bq.getch.enter", "bq.getch.notified", "bq.loader.checked", "bq.loader.locked", "bq.loader.polled"}
+		"wp.worker.exit.pre", "wp.worker.exit.post", "bq.offer.locked", "bq.getch.enter", "bq.notify.checked", "bq.getch.notified", "bq.loader.checked", "bq.loader.locked", "bq.loader.polled"}
 	wpCloser := []string{"wp.close.flagged", "bq.close.locked", "bq.close.flagged", "bq.close.wakeclosed", "bq.close.done"}
 	for _, variant := range []string{"Schedule", "Schedule-panicking-job", "Schedule-queue-left-open"} {
 		name := variant
